@@ -61,7 +61,24 @@ pub fn exec(case: &Value) -> Vec<Value> {
         let _ = std::fs::remove_file(&outp);
         let inps: Vec<std::path::PathBuf> = (0..nfiles).map(|j| dir.join(format!("corpus{j}.txt"))).collect();
         for (j, p) in inps.iter().enumerate() {
-            std::fs::write(p, blocks[j].iter().map(|l| format!("{l}\n")).collect::<String>()).unwrap();
+            // `blanks` > 0: empty, whitespace-only and CR-only lines at the start of every file and between the lines (they
+            // hold no word; only without a line limit, which counts them)
+            let blanks = if max_lines == 0 { get_u(case, "blanks") } else { 0 };
+            let kinds = ["", " \t ", "\r", "\u{00A0}"];
+            let mut text = String::new();
+            for b in 0..blanks {
+                text.push_str(kinds[b % kinds.len()]);
+                text.push('\n');
+            }
+            for (k, l) in blocks[j].iter().enumerate() {
+                text.push_str(l);
+                text.push('\n');
+                if blanks > 0 && k % 2 == 0 {
+                    text.push_str(kinds[(k / 2 + j) % kinds.len()]);
+                    text.push('\n');
+                }
+            }
+            std::fs::write(p, text).unwrap();
         }
         // vocab_size must be a multiple of 64: 320 - 256 - (64 - m) = m merges
         let norm = if with_norm { Some(Normalization::NFKC) } else { None };
@@ -104,7 +121,7 @@ pub fn gen(seed: u64, n: usize) -> Vec<Value> {
             let max_lines = [0, 0, 1, 2, 4][rng.random_range(0..5)];
             json!({"words": words, "freqs": freqs, "num_merges": rng.random_range(0..=24), "per_line": rng.random_range(1..=3),
                    "seed": rng.random::<u32>(), "threads": [th], "norm": rng.random_bool(0.5), "alpha": alpha,
-                   "files": rng.random_range(1..=3), "max_lines": max_lines})
+                   "files": rng.random_range(1..=3), "max_lines": max_lines, "blanks": if rng.random_bool(0.3) { rng.random_range(1..=5) } else { 0 }})
         })
         .collect()
 }
